@@ -50,6 +50,9 @@ class _SQLLineageConfigLoader:
             super().__setattr__(key, value)
 
     def __call__(self, *args, **kwargs):
+        if self.get_ident() in self._thread_in_context_manager:
+            # reject here rather than in __enter__, otherwise the outer scope's values are already overwritten
+            raise ConfigException("SQLLineageConfig context manager is not reentrant")
         for key in kwargs:
             if key not in self.config.keys():
                 # validate all keys before storing any, so that a rejected call leaves nothing behind
